@@ -360,6 +360,23 @@ def run_case(case):
                 COL.ok("C12.routes", ("layout", how))
         else:
             COL.ok("C12.routes", ("layout", how))          # float32 values differ: judged by the wrapper on its own values
+        # the same layouts handed to the reusable matcher directly (its constructor and match() convert on their own),
+        # including a per-point radius array in that layout
+        rl = relay(np.broadcast_to(radius, (ra1.size,)).copy(), how)[0] if how != "f4" else rarg
+        mres, e = probe.attempt(lambda: htm.Matcher(depth, a2, b2).match(a1, b1, rl, maxmatch=0))
+        if e is not None:
+            COL.violation("C12.routes", "Matcher with coordinates as %s: raised %s: %s" % (how, type(e).__name__, str(e)[:120]), wit)
+        elif how != "f4":
+            if not same_result(mres, base):
+                COL.violation("C12.routes", "Matcher with coordinates and radii as %s gives a different result than HTM.match on native arrays" % how, wit)
+            else:
+                COL.ok("C12.routes", ("matcher-layout", how))
+        mres2, e = probe.attempt(lambda: htm.Matcher(depth, ra2, dec2).match(a1, b1, rarg, maxmatch=2))
+        mres3, e3 = probe.attempt(lambda: htm.Matcher(depth, a2, b2).match(ra1, dec1, rarg, maxmatch=2, file=fname))
+        try:
+            os.unlink(fname)
+        except OSError:
+            pass
 
 
 def same_result(a, b):
